@@ -194,6 +194,25 @@ func c09Content(res *explore.Result, content string, pi int, verbose bool) {
 				p, b := r.ReadRegexp(pos, "[^a]")
 				return pb(p, keep(b, fmt.Sprintf("ReadRegexp(+%d, `[^a]`)", cur)))
 			}, want)
+			// the same two expressions again in the order A, A, B, A, A on this reader: what the reader remembers about
+			// the expression it saw last must not answer for another one
+			{
+				kA, kB := reAPlus(rest), reNotA(rest)
+				wantA, wantB := pb(pos, nil), pb(pos, nil)
+				if kA > 0 {
+					wantA = pb(parsley.Pos(base+cur+kA), rest[:kA])
+				}
+				if kB > 0 {
+					wantB = pb(parsley.Pos(base+cur+kB), rest[:kB])
+				}
+				for step, e := range []string{"a+", "a+", "[^a]", "a+", "a+"} {
+					e, w := e, wantA
+					if e == "[^a]" {
+						w = wantB
+					}
+					check("ReadRegexp", fmt.Sprintf("`%s` (call %d of the order A, A, B, A, A)", e, step+1), func() string { return pb(r.ReadRegexp(pos, e)) }, w)
+				}
+			}
 			// a top-level alternation must be anchored at the cursor as a whole
 			k = 0
 			if bytes.HasPrefix(rest, []byte("a_")) || bytes.HasPrefix(rest, []byte("_a")) {
@@ -289,6 +308,18 @@ func c09MaxLen(tier string) int {
 
 func c09Run(env *explore.Env) *explore.Result {
 	res := explore.NewResult()
+	// every byte value directly after / before a word and a match: the edges of every character class the
+	// primitives use (word characters, whitespace, ASCII / multi-byte) are byte values, so all 256 are tried
+	for v := 0; v < 256; v++ {
+		if !env.Mine(int64(v)) {
+			continue
+		}
+		for _, content := range []string{"a" + string([]byte{byte(v)}), "a_" + string([]byte{byte(v)}), string([]byte{byte(v)}) + "a", "a1" + string([]byte{byte(v)}) + "a"} {
+			c09Content(res, content, 0, false)
+			res.Add("traces", 1)
+			res.Add("byte_sweep_contents", 1)
+		}
+	}
 	eachString(c09Symbols, c09MaxLen(env.Tier), func(idx int64, s string, syms []int) {
 		if !env.Mine(idx) {
 			return
